@@ -48,8 +48,11 @@ pub mod sim {
     /// What one simulated run did with the clock.
     #[derive(Clone, Debug, Default, PartialEq)]
     pub struct Report {
-        /// Number of `Instant::now()` calls.
+        /// Number of clock reads (`web_time::Instant::now()` and, through the interposed
+        /// `clock_gettime`, `std::time::Instant::now()`).
         pub reads: u64,
+        /// How many of them came through `std::time`.
+        pub std_reads: u64,
         /// Read index current when a comparison `a >= b` between instants first held
         /// (microlp only ever compares `now() >= deadline`).
         pub first_expired_read: Option<u64>,
@@ -200,6 +203,49 @@ pub mod sim {
         }
     }
 
+    /// A read coming through `std::time::Instant` (see `clock_gettime` below). Never
+    /// unwinds: it crosses a C ABI. `None` = no simulation on this thread.
+    pub(super) fn read_for_std() -> Option<Duration> {
+        STATE
+            .try_with(|s| {
+                let mut guard = s.try_borrow_mut().ok()?;
+                let st = guard.as_mut()?;
+                st.report.reads += 1;
+                st.report.std_reads += 1;
+                let i = st.report.reads;
+                let next = match &st.schedule {
+                    Schedule::Frozen => st.now,
+                    Schedule::ExpireAt { k } => {
+                        if i >= *k {
+                            T0 + JUMP
+                        } else {
+                            st.now
+                        }
+                    }
+                    Schedule::JumpAt { k, nanos } => {
+                        if i == *k {
+                            st.now + Duration::from_nanos(*nanos)
+                        } else {
+                            st.now
+                        }
+                    }
+                    Schedule::Ticks { seed, mix } => {
+                        st.now + Duration::from_nanos(tick_nanos(*seed, *mix, i))
+                    }
+                };
+                if next > st.now {
+                    st.now = next;
+                }
+                if st.first.is_none() {
+                    st.first = Some(st.now);
+                }
+                st.report.sim_elapsed_nanos = (st.now - st.first.unwrap()).as_nanos();
+                Some(st.now)
+            })
+            .ok()
+            .flatten()
+    }
+
     pub(super) fn note_comparison(holds_ge: bool) {
         STATE.with(|s| {
             if let Some(st) = s.borrow_mut().as_mut() {
@@ -299,4 +345,45 @@ impl Sub<Instant> for Instant {
     fn sub(self, other: Instant) -> Duration {
         self.duration_since(other)
     }
+}
+
+// ---------------------------------------------------------------------------------------
+// The same simulated clock for `std::time::Instant`.
+//
+// `std::time::Instant::now()` is `clock_gettime(CLOCK_MONOTONIC)`. The executable defines
+// that symbol itself, so every call from Rust code linked into it (std included) lands
+// here first. On a thread with a schedule installed the monotonic clock IS the simulated
+// clock (each call is one more read of the same schedule); anywhere else the call goes
+// straight to the kernel. This puts Clarabel's timers, and any clock a change to rooc might
+// start reading through std, behind the same seam as microlp's.
+
+#[repr(C)]
+pub struct Timespec {
+    tv_sec: i64,
+    tv_nsec: i64,
+}
+
+extern "C" {
+    fn syscall(num: std::os::raw::c_long, ...) -> std::os::raw::c_long;
+}
+
+#[cfg(all(target_os = "linux", target_arch = "x86_64"))]
+const SYS_CLOCK_GETTIME: std::os::raw::c_long = 228;
+const CLOCK_MONOTONIC: i32 = 1;
+const CLOCK_MONOTONIC_RAW: i32 = 4;
+const CLOCK_BOOTTIME: i32 = 7;
+
+/// # Safety
+/// Same contract as libc's `clock_gettime`: `ts` must be valid for writes.
+#[cfg(all(target_os = "linux", target_arch = "x86_64"))]
+#[no_mangle]
+pub unsafe extern "C" fn clock_gettime(clk: i32, ts: *mut Timespec) -> std::os::raw::c_int {
+    if matches!(clk, CLOCK_MONOTONIC | CLOCK_MONOTONIC_RAW | CLOCK_BOOTTIME) && !ts.is_null() {
+        if let Some(t) = sim::read_for_std() {
+            (*ts).tv_sec = t.as_secs() as i64;
+            (*ts).tv_nsec = t.subsec_nanos() as i64;
+            return 0;
+        }
+    }
+    syscall(SYS_CLOCK_GETTIME, clk as std::os::raw::c_long, ts) as std::os::raw::c_int
 }
